@@ -326,6 +326,15 @@ class SecureField(Field):
             "ciphertext": base64.b64encode(secret.ciphertext).decode(),
         }
 
+    def _validate(self, cfg: Config, value: Any) -> Any:
+        """
+        A required secret must not be empty: an empty secret is saved as "no value" (see
+        :meth:`to_basic`) and would come back unset.
+        """
+        if self.required and not value:
+            raise ValueError("value is required")
+        return value
+
     def to_python(self, cfg: Config, value: Any) -> Optional[str]:
         if value is None:
             return value
